@@ -229,6 +229,15 @@ func (c *Ctx) Exec(id string, nontrivial bool, f func() Verdict) {
 			v.KF = ""
 			break
 		}
+		if !v.OK && v.KF != "" && c.KFListed[v.KF] && (w.OK || w.KF == v.KF) {
+			// First execution: the listed finding; re-execution: the listed finding again or a pass. Neither
+			// execution violates anything that is not already listed, so there is nothing to report. The two
+			// may legitimately differ when the case's data are not under the harness's control (a library
+			// whose random constructors draw from a private, clock-seeded source gives every execution other
+			// initial weights, and whether the finding shows depends on them): that is not hidden state
+			// (false alarm found with the property-preserving bundle B10, DESIGN 9.11).
+			continue
+		}
 		if w.OK != v.OK || w.KF != v.KF || w.Detail != v.Detail {
 			if strings.Contains(v.Detail, "HARNESS") || strings.Contains(w.Detail, "HARNESS") {
 				c.Broken("harness problem: case %s gave different verdicts on re-execution:\n first: %s\n again: %s", id, v.Detail, w.Detail)
